@@ -50,6 +50,7 @@ func checkC07(r *Report, p *Program) {
 	noOpTestOperands(r, p, "R07.22")
 	patchHelpersTable(r, p, "R07.23")
 	materialisedRevisionAppended(r, p, "R07.24")
+	r08_2(r, p) // a revision that still claims a child of any kind is kept (its children stay pinned)
 }
 
 // r07_9: which fields are revisioned. The default (all of spec) applies whenever the
